@@ -14,7 +14,9 @@
 (*   type    "dlg" | "inv"        what the honest issuer sealed            *)
 (*   outer   "list2" | "list3" | "list1" | "map"   shape of the envelope   *)
 (*   sig     [q, by, over], q in valid / garbage / empty / truncated /     *)
-(*           string (not bytes)                                            *)
+(*           string (not bytes) / rawrs (a well-formed fixed-size r||s     *)
+(*           pair that is not the signature) / dersmall (DER of (1,1)) /   *)
+(*           zeros                                                         *)
 (*   hdr     "alg1" | "alg2" | "foreign" | "absent" | "notbytes"           *)
 (*           (alg1 = H's algorithm; M's algorithm is the constant MAlg)    *)
 (*   tag     "dlg" | "inv" | "ucan/x" | "nonucan"                          *)
@@ -24,7 +26,8 @@
 (*           valid value), "absent", "null", "wrongkind", "bad" (invalid   *)
 (*           syntax), "short" / "empty" (nonce), "oob" / "oobneg" (the     *)
 (*           integers 2^53 / -2^53, just outside the safe range),          *)
-(*           "u64" (integer 2^64-5 as CBOR unsigned); pl.iss in            *)
+(*           "u64" (integer 2^64-5 as CBOR unsigned), "zero" / "neg" (the  *)
+(*           instants 0 and -1 s: valid values at the edge); pl.iss in     *)
 (*           {"H","M","absent","wrongkind","bad"}; pl.zzz = "present" is   *)
 (*           an unknown field                                              *)
 (*                                                                         *)
@@ -37,7 +40,10 @@
 (*   "TimeU64Wraps"  an nbf/exp/iat of 2^64-5 is silently read as -5       *)
 (*                   (pinned tree before the fix): decoded content differs *)
 (*                   from the signed content                               *)
-(*   "EmptySigSkipsVerify", "HeaderNotChecked"  (sensitivity only)         *)
+(*   "ZeroTimeDropped"  a time bound of 0 is read as "no bound"            *)
+(*   "EmptySigSkipsVerify", "HeaderNotChecked", "RawSigRetryAccepts" (a     *)
+(*   second verification attempt for fixed-size signatures that only looks *)
+(*   at the error)  (sensitivity only)                                     *)
 (***************************************************************************)
 EXTENDS Integers, Sequences, FiniteSets, TLC, Json
 
@@ -63,7 +69,7 @@ Classes(t, f) ==
     [] f = "prf" -> {"ok", "ok2", "absent", "wrongkind"}
     [] f = "nonce" -> {"ok", "ok2", "absent", "wrongkind", "short", "empty"}
     [] f = "meta" -> {"ok", "ok2", "absent", "wrongkind"}
-    [] f \in IntFields -> {"ok", "ok2", "absent", "null", "wrongkind", "oob", "oobneg", "u64"}
+    [] f \in IntFields -> {"ok", "ok2", "absent", "null", "wrongkind", "oob", "oobneg", "u64", "zero", "neg"}
     [] f = "cause" -> {"ok", "absent", "wrongkind"}
 
 SealedPl(t) == [f \in Fields(t) |-> IF f = "iss" THEN "H" ELSE IF f = "zzz" THEN "absent" ELSE "ok"]
@@ -88,7 +94,7 @@ SigGenuine(w) ==
 
 \* C10: well-formed payload of the type, exactly one header and one payload under the tag
 FieldOK(t, f, c) ==
-  \/ c \in {"ok", "ok2", "H", "M"}
+  \/ c \in {"ok", "ok2", "H", "M", "zero", "neg"}
   \/ c = "absent" /\ Optional(t, f)
   \/ c = "null" /\ f = "exp"
 WellFormed(w, t) ==
@@ -123,14 +129,16 @@ Decode(w, decoder) ==
   ELSE IF pl.iss = "bad" THEN reject("iss:parse")
   ELSE IF w.hdr # AlgOf(pl.iss) /\ "HeaderNotChecked" \notin Deviations THEN reject("header")
   ELSE IF ~(w.sig.q = "valid" /\ w.sig.by = pl.iss /\ w.sig.over = Content(w))
-          /\ ~(w.sig.q = "empty" /\ "EmptySigSkipsVerify" \in Deviations) THEN reject("verify")
+          /\ ~(w.sig.q = "empty" /\ "EmptySigSkipsVerify" \in Deviations)
+          /\ ~(w.sig.q = "rawrs" /\ "RawSigRetryAccepts" \in Deviations) THEN reject("verify")
   ELSE IF \E f \in Fields(t) : pl[f] \in {"bad", "short", "empty", "oob", "oobneg"} THEN reject("model")
   ELSE IF t = "inv" /\ pl.nonce = "absent" THEN reject("model")
   ELSE IF \E f \in Fields(t) : pl[f] = "u64" /\ ~(f \in IntFields /\ "TimeU64Wraps" \in Deviations) THEN reject("model")
   ELSE [ok |-> TRUE, stage |-> "accepted", type |-> t]
 
 \* the decoded content equals the signed content unless a value was silently altered
-DecodedFaithful(w) == ~\E f \in IntFields \cap DOMAIN w.pl : w.pl[f] = "u64"
+DecodedFaithful(w) == ~\E f \in IntFields \cap DOMAIN w.pl :
+                          w.pl[f] = "u64" \/ (w.pl[f] = "zero" /\ "ZeroTimeDropped" \in Deviations)
 
 ---------------------------------------------------------------------------
 (* The system *)
@@ -162,7 +170,7 @@ SetExtra == Can /\ \E e \in {"third", "twotags"} : e # w.extra
               /\ w' = [w EXCEPT !.extra = e] /\ ops' = Append(ops, Op("extra", e, "")) /\ UNCHANGED res
 SetOuter == Can /\ \E o \in {"list3", "list1", "map"} : o # w.outer
               /\ w' = [w EXCEPT !.outer = o] /\ ops' = Append(ops, Op("outer", o, "")) /\ UNCHANGED res
-SetSig   == Can /\ \E q \in {"garbage", "empty", "truncated", "string"} : q # w.sig.q
+SetSig   == Can /\ \E q \in {"garbage", "empty", "truncated", "string", "rawrs", "dersmall", "zeros"} : q # w.sig.q
               /\ w' = [w EXCEPT !.sig.q = q] /\ ops' = Append(ops, Op("sig", q, "")) /\ UNCHANGED res
 
 DoDecode == res = Idle /\ \E d \in Decoders :
